@@ -652,6 +652,14 @@ func c03Driver(d *fw.D) {
 	// vector kind), so the violations are ordered: first one per (failure, function,
 	// callback position), then the others, each group in the order it was found.
 	stem := func(key string) string {
+		// the operator forms (c03_opforms.go): one per (failure, operator) first
+		if i := strings.Index(key, "-from-operator-form:"); i >= 0 {
+			parts := strings.Split(strings.TrimPrefix(key[i+len("-from-operator-form:"):], "composed:"), ":")
+			if len(parts) >= 2 {
+				return key[:i] + "-from-operator-form:" + parts[0] + ":" + strings.SplitN(parts[1], "(", 2)[0]
+			}
+			return key
+		}
 		if parts := strings.SplitN(key, ":", 5); len(parts) == 5 {
 			return strings.Join(parts[:4], ":")
 		}
@@ -668,6 +676,7 @@ func c03Driver(d *fw.D) {
 		}
 	}
 	d.Violations = append(first, rest...)
+	c03OfFloor(d)
 	if os.Getenv("VERIF_CASES") != "" && d.Counters["reentrant_functions_examined"] == 0 {
 		return // a truncated development run that reached no case of the family
 	}
